@@ -80,7 +80,9 @@ ZeroVal(od) == IF od.kind = "scalar" THEN <<ZeroText(od.vtype)>> ELSE IF od.kind
 HelpOpt(d, c) == [cmd |-> c, group |-> 0, short |-> 104, long |-> <<104, 101, 108, 112>>, kind |-> "help", vtype |-> "",
                   base |-> 10, optional |-> FALSE, optvals |-> <<>>, required |-> FALSE, defaults |-> <<>>,
                   env |-> E, envDelim |-> E, choices |-> <<>>, hidden |-> FALSE, unquote |-> TRUE,
-                  init |-> <<>>, failOn |-> <<>>, validator |-> FALSE]
+                  init |-> <<>>, failOn |-> <<>>, validator |-> FALSE,
+                  valueName |-> E, mask |-> E, iniName |-> E, noIni |-> FALSE, field |-> <<83, 104, 111, 119, 72, 101, 108, 112>>,     \* ShowHelp
+                  desc |-> <<83, 104, 111, 119, SPACE, 116, 104, 105, 115, SPACE, 104, 101, 108, 112, SPACE, 109, 101, 115, 115, 97, 103, 101>>]  \* Show this help message
 
 \* options in scope at command c, in the order the lookup maps are filled: ancestors first, then c
 \* (command.go:320-346); within a command in declaration order, the help group last.
